@@ -14,6 +14,7 @@ import (
 
 	"github.com/DrmagicE/gmqtt"
 	"github.com/DrmagicE/gmqtt/persistence/queue"
+	"github.com/DrmagicE/gmqtt/pkg/packets"
 	"github.com/DrmagicE/gmqtt/server"
 	"pgregory.net/rapid"
 
@@ -32,6 +33,9 @@ type c20Client struct {
 	// EmptyID (v5): the first CONNECT carries a zero-length client id; the broker assigns one (CONNACK Assigned Client
 	// Identifier), which the client uses from then on and under which its statistics must appear
 	EmptyID bool `json:"empty_id,omitempty"`
+	// AuthMethod (v5): every CONNECT carries an Authentication Method (accepted by an OnEnhancedAuth hook), so that
+	// the client may re-authenticate: AUTH (0x19) sent, AUTH (0x00) received - both belong to the packet statistics
+	AuthMethod bool `json:"auth_method,omitempty"`
 }
 
 type c20Op struct {
@@ -61,6 +65,9 @@ func genC20(t *rapid.T) c20Scen {
 		}
 		if c.V == 5 && rapid.IntRange(0, 3).Draw(t, "emptyid") == 0 {
 			c.EmptyID = true
+		}
+		if c.V == 5 && rapid.IntRange(0, 2).Draw(t, "authmethod") == 0 {
+			c.AuthMethod = true
 		}
 		if c.V == 5 && c.Persistent && rapid.IntRange(0, 3).Draw(t, "short") == 0 {
 			c.ShortExpiry = true
@@ -92,6 +99,8 @@ func genC20(t *rapid.T) c20Scen {
 			s.Ops = append(s.Ops, c20Op{Op: "takeover", Client: cl, Clean: rapid.Bool().Draw(t, "clean")})
 		case k == 17:
 			s.Ops = append(s.Ops, c20Op{Op: "terminate", Client: cl})
+		case k == 18 && s.Clients[cl].AuthMethod:
+			s.Ops = append(s.Ops, c20Op{Op: "reauth", Client: cl})
 		default:
 			s.Ops = append(s.Ops, c20Op{Op: "check"})
 		}
@@ -223,22 +232,29 @@ func runC20(s c20Scen, c *ev.Case) *ev.Violation {
 	}
 	var mu sync.Mutex
 	drops := map[dropKey]uint64{}
-	hooks := &server.Hooks{OnMsgDropped: func(ctx context.Context, clientID string, msg *gmqtt.Message, err error) {
-		reason := "Internal"
-		switch err {
-		case queue.ErrDropExceedsMaxPacketSize:
-			reason = "ExceedsMaxPacketSize"
-		case queue.ErrDropQueueFull:
-			reason = "QueueFull"
-		case queue.ErrDropExpired:
-			reason = "Expired"
-		case queue.ErrDropExpiredInflight:
-			reason = "InflightExpired"
-		}
-		mu.Lock()
-		drops[dropKey{clientID, msg.QoS, reason}]++
-		mu.Unlock()
-	}}
+	hooks := &server.Hooks{
+		OnEnhancedAuth: func(ctx context.Context, cl server.Client, req *server.ConnectRequest) (*server.EnhancedAuthResponse, error) {
+			return &server.EnhancedAuthResponse{}, nil
+		},
+		OnReAuth: func(ctx context.Context, cl server.Client, auth *packets.Auth) (*server.AuthResponse, error) {
+			return &server.AuthResponse{}, nil
+		},
+		OnMsgDropped: func(ctx context.Context, clientID string, msg *gmqtt.Message, err error) {
+			reason := "Internal"
+			switch err {
+			case queue.ErrDropExceedsMaxPacketSize:
+				reason = "ExceedsMaxPacketSize"
+			case queue.ErrDropQueueFull:
+				reason = "QueueFull"
+			case queue.ErrDropExpired:
+				reason = "Expired"
+			case queue.ErrDropExpiredInflight:
+				reason = "InflightExpired"
+			}
+			mu.Lock()
+			drops[dropKey{clientID, msg.QoS, reason}]++
+			mu.Unlock()
+		}}
 	if s.Redis {
 		rs, cleanup, e := fixture.StartRedis()
 		if e != nil {
@@ -337,6 +353,9 @@ func runC20(s c20Scen, c *ev.Case) *ev.Violation {
 			}
 			if cs.MaxPkt != 0 {
 				p.Props.MaxPacketSize = u32p(uint32(cs.MaxPkt))
+			}
+			if cs.AuthMethod {
+				p.Props.AuthMethod = strp("m")
 			}
 		}
 		if err := cl.Send(p); err != nil {
@@ -622,6 +641,18 @@ func runC20(s c20Scen, c *ev.Case) *ev.Violation {
 				}
 				delete(ss.subs, op.Filter)
 			}
+		case "reauth":
+			if !ss.exists || !ss.online || !s.Clients[op.Client].AuthMethod {
+				c.Count("skipped_ops", 1)
+				continue
+			}
+			if err := ss.cur.Send(&mw.Packet{Type: mw.AUTH, ReasonCode: 0x19, Props: &mw.Props{AuthMethod: strp("m"), AuthData: []byte("again"), HasAuthData: true}}); err != nil {
+				return harnessErr("send AUTH: %v", err)
+			}
+			if p, err := ss.cur.WaitType(mw.AUTH, fixture.DefaultWait); err != nil || p.ReasonCode != 0 {
+				return ev.Violf("C20.reauth", "re-authentication accepted by the hook was not answered with AUTH (success): %v %v", p, err)
+			}
+			c.Label("auth_packets_exchanged")
 		case "pub":
 			uid++
 			payload := fmt.Sprintf("m%03d", uid)
